@@ -12,7 +12,10 @@ LEVEL = "exploration"
 RULE = ("Generated non-terminating and resource-hungry programs run under `playground-run` and `sandboxed-test`: "
         "`while True` with assorted bodies (empty, printing, allocating, calling), direct / mutual / closure / method "
         "recursion without a base case, loops that nest a value as deep as the tick budget allows (x = [x], Some(x), "
-        "(x,)) and then print / compare / drop it or simply end, read_line with standard input held open, and "
+        "(x,)) and then print / compare / drop it or simply end, read_line with standard input held open, "
+        "sequences of 2..4 tests (most of them non-terminating) optionally followed by non-terminating top-level code in "
+        "one run (under playground-run, and under sandboxed-test with an offset outside every test, at the end, in a "
+        "called function or in one test), so that the budget has to stop the run more than once, and "
         "ordinary G-core programs. Oracle: the process exits by itself within 20 s (re-run once at 200 s before a "
         "time-out is called a violation) with status 0 and well-formed JSON lines, never by signal or exit 101. "
         "Exponential memory growth (s = s ^ s) is outside the property's wording and is not generated. "
@@ -83,6 +86,38 @@ def enum_cases(tier):
            "offset": src.index("string_repr"), "stdin": "open"}
 
 
+TEST_BODIES = ["while True { 1 }", "spin_rec(0)", "for x in [1, 2, 3] { while True { 1 } }",
+               "let xs = []\n  while True { xs = xs.append(1) }", "assert(1 == 1)", "assert(1 / 0 == 1)", "println(\"in test\")",
+               "let n = 0\n  while True { n += 1 }", "1.forever_m()"]
+
+
+def gen_sequences(r):
+    """several resource-hungry pieces in ONE sandboxed run: 2..4 tests (most of them non-terminating), optionally
+    followed by non-terminating top-level code, so that the step / stack budget has to stop the run more than once"""
+    n = r.int(2, 4)
+    src = "fun spin_rec(n: Int): Int { spin_rec(n + 1) }\nmethod forever_m(this: Int): Int { (this + 1).forever_m() }\n"
+    names = []
+    for i in range(n):
+        body = r.choice(TEST_BODIES[:4] + TEST_BODIES)
+        names.append(f"seq_test_{i}")
+        src += f"test seq_test_{i} {{\n  {body}\n}}\n"
+    top = r.choice(["", "", "while True { 1 }\n", "spin_rec(0)\n", "println(\"top\")\n", "let t = 0\nwhile True { t += 1 }\n"])
+    src += top
+    cmd = r.choice(["playground-run", "sandboxed-test", "sandboxed-test"])
+    case = {"name": f"sequence of {n} tests" + (" + top-level code" if top else ""), "src": src, "cmd": cmd, "stdin": "token"}
+    if cmd == "sandboxed-test":
+        k = r.int(0, 3)
+        if k == 0:
+            case["offset"] = 0                      # outside every test: all tests run
+        elif k == 1:
+            case["offset"] = len(src) - 1
+        elif k == 2:
+            case["offset"] = src.index("spin_rec(n + 1)")      # tests that call spin_rec
+        else:
+            case["offset"] = src.index(r.choice(names))
+    return case
+
+
 def gen_ordinary(r):
     knobs = G.Knobs(errors=r.bool(0.5), early_exit_bias=r.bool(0.3), max_stmts=r.choice([4, 8]), max_funs=r.choice([0, 1, 2]))
     _, src = G.generate(r, knobs)
@@ -138,5 +173,6 @@ def show(case):
 
 SUBS = [
     Sub("non-terminating", check, enum=enum_cases, show=show),
+    Sub("sequences", check, gen=gen_sequences, cases={"quick": 60, "thorough": 2000}, show=show),
     Sub("ordinary", check, gen=gen_ordinary, cases={"quick": 150, "thorough": 4000}, show=show),
 ]
